@@ -1036,19 +1036,39 @@ fn dual_gradient(
         .iter()
         .map(|v| Dual::c(*v as f64))
         .collect();
-    let r = eval_dual(&work.sg.dag, x, y, z, &vars);
-    if !r.supported || !(r.tie_margin > 1e-3) {
-        return None;
+    let at = |s: f64| -> Option<[f64; 3]> {
+        // the renderer computes the sample position in f32: shift every
+        // coordinate by a few of its ulps
+        let sh = |mut c: Dual<3>| {
+            c.v += s * 8.0 * f32::EPSILON as f64 * c.v.abs().max(1.0);
+            c
+        };
+        let r = eval_dual(&work.sg.dag, sh(x), sh(y), sh(z), &vars);
+        if !r.supported || !(r.tie_margin > 1e-3) {
+            return None;
+        }
+        let g = r.vals[work.sg.root];
+        if !g.v.is_finite() || g.d.iter().any(|v| !v.is_finite()) {
+            return None;
+        }
+        if g.d.iter().any(|v| v.abs() > 1e4) {
+            // ill-conditioned (near a pole of the transform or of the field)
+            return None;
+        }
+        Some(g.d)
+    };
+    let g = at(0.0)?;
+    // the gradient must be insensitive to rounding of the sample position:
+    // where a few ulps of the input move it by a noticeable part of the
+    // tolerance the f32 pipeline cannot be held to the f64 value
+    let scale = g.iter().map(|v| v.abs()).fold(0.0f64, f64::max).max(1e-3);
+    for s in [-1.0, 1.0] {
+        let h = at(s)?;
+        if (0..3).any(|a| (h[a] - g[a]).abs() > 0.25 * (2e-3 * scale + 1e-4)) {
+            return None;
+        }
     }
-    let g = r.vals[work.sg.root];
-    if !g.v.is_finite() || g.d.iter().any(|v| !v.is_finite()) {
-        return None;
-    }
-    if g.d.iter().any(|v| v.abs() > 1e4) {
-        // ill-conditioned (near a pole of the transform or of the field)
-        return None;
-    }
-    Some(g.d)
+    Some(g)
 }
 
 ////////////////////////////////////////////////////////////////////////////////
